@@ -18,7 +18,8 @@ CONSTANTS
   MaxStops = 1
   MaxExpire = 2
   IgnoredStarts = TRUE
-  LateRace = FALSE
+  RaceFinder = FALSE
+  RaceBuffer = FALSE
 VIEW view
 INVARIANTS DeliveredAscending Outcome AncestorCommon NeverBeyondTarget PeerConservation ConnQueueSane HashReqSane NoActorBlock Restartable
 CHECK_DEADLOCK FALSE
